@@ -51,6 +51,11 @@ func DecodeAVP(data []byte, application uint32, dictionary *dict.Parser) (*AVP, 
 // DecodeFromBytes decodes the bytes of a Diameter AVP.
 // It uses the given application id and dictionary for decoding the bytes.
 func (a *AVP) DecodeFromBytes(data []byte, application uint32, dictionary *dict.Parser) error {
+	return a.decodeFromBytes(data, application, dictionary, 0)
+}
+
+// decodeFromBytes is DecodeFromBytes for an AVP found depth grouped AVPs deep.
+func (a *AVP) decodeFromBytes(data []byte, application uint32, dictionary *dict.Parser, depth int) error {
 	if len(data) < 8 {
 		return fmt.Errorf("Not enough data to decode AVP header: %d bytes", len(data))
 	}
@@ -98,9 +103,9 @@ func (a *AVP) DecodeFromBytes(data []byte, application uint32, dictionary *dict.
 	}
 	// Handle grouped AVPs.
 	if a.Data.Type() == datatype.GroupedType {
-		a.Data, err = DecodeGrouped(
+		a.Data, err = decodeGrouped(
 			a.Data.(datatype.Grouped),
-			application, dictionary,
+			application, dictionary, depth+1,
 		)
 		if err != nil {
 			return err
